@@ -459,6 +459,9 @@ def _to_np_array(data):
 
 
 def _infer_dtype(data):
+    if data and isinstance(data[0], str):
+        # Fixed width numpy strings would strip trailing null characters
+        return np.dtype('O')
     if data and isinstance(data[0], int):
         max_value = max(data)
         min_value = min(data)
